@@ -5,6 +5,9 @@
          AmbientSlot runtime — the model is the same for all: wrappers are transparent, property C03)
         P ::= event | (span P…) | (spant P…) | (spana P…) | (push (TRACE SPAN FLAGS) P…) | (carry P…) | (root P…)
             | (pushs TS P…) | (pushb (TRACE SPAN FLAGS) TS P…) | (spanp P…) | (pushp (TRACE SPAN FLAGS) P…) | (sspan (TRACE SPAN FLAGS) P…)      TS ::= N (0 = the empty tracestate; text "sN")
+            | spanevt | spanevts | spanevte | spanevtp    (a completed span emitted as an EVENT through the runtime — range extent,
+              evt_kind span, ids of `SpanCtxt::current(ctxt).new_child(rng)`: as `emit!` props / `rt.emit(Span::new(..))` /
+              `emit!(evt: Span)` / `emit!(props: span_ctxt, ..)`; one model op, `Prog.spanEvent`)
         TRACE, SPAN ::= none | N with N ≥ 1000000 (ids that arrive in headers; rng-drawn ids are the counter 1,2,3…)
     → the observation log, oldest first, then `calls=N cur=(T S F)`
 -/
@@ -31,6 +34,11 @@ def tp? : Sexp → Option TP
 mutual
 partial def prog? : Sexp → Option Prog
   | .atom "event" => some .event
+  -- a manual span, however the event is put together: what reaches the runtime filter is the same
+  | .atom "spanevt" => some .spanEvent
+  | .atom "spanevts" => some .spanEvent
+  | .atom "spanevte" => some .spanEvent
+  | .atom "spanevtp" => some .spanEvent
   | .list (.atom "span" :: cs) => (progs? cs).map Prog.span
   -- a span / pushed header whose scope is left by a PANIC (caught right outside): unwinding drops the guard inside
   -- the frame and exits the frame like a normal return, so the model is the same program (`restore_after`)
@@ -81,11 +89,23 @@ def showObs : Obs → String
   | .spanOpen en ids => s!"(open {en} {showIds ids})"
   | .spanDone ids => s!"(done {showIds ids})"
   | .event cur st ids p1 p2 => s!"(event {showTP cur} {st} {showIds ids} {p1} {p2})"
+  | .spanEvent ids p1 p2 => s!"(spanevt {showIds ids} {p1} {p2})"
 
 def countSpans : List Obs → Nat
   | [] => 0
   | .spanOpen _ _ :: r => countSpans r + 1
   | _ :: r => countSpans r
+
+def countSpanEvents : List Obs → Nat
+  | [] => 0
+  | .spanEvent _ _ _ :: r => countSpanEvents r + 1
+  | _ :: r => countSpanEvents r
+
+/-- which filter answers a case's manual spans got: `n` none, `t`/`f` only accepted / only rejected, `b` both -/
+def spanEventVerdicts (obs : List Obs) : String :=
+  let t := obs.any fun | .spanEvent _ true _ => true | _ => false
+  let f := obs.any fun | .spanEvent _ false _ => true | _ => false
+  if t && f then "b" else if t then "t" else if f then "f" else "n"
 
 def runC18 (line : String) : String :=
   match Sexp.parse line with
@@ -96,7 +116,7 @@ def runC18 (line : String) : String :=
       let e := runList ⟨hs, ds, outside⟩ ps env0
       let obs := e.out.reverse
       let nspan := countSpans obs
-      let sig := if obs.length ≤ 1 then "trivial" else s!"spans={min nspan 6},calls={min e.calls 4},push={(line.splitOn "(push ").length - 1 |> min 3},pushs={(line.splitOn "(pushs ").length + (line.splitOn "(pushb ").length - 2 |> min 3},thread={(line.splitOn "spant").length + (line.splitOn "carry").length - 2 |> min 3}"
+      let sig := if obs.length ≤ 1 then "trivial" else s!"spans={min nspan 6},calls={min e.calls 4},push={(line.splitOn "(push ").length - 1 |> min 3},pushs={(line.splitOn "(pushs ").length + (line.splitOn "(pushb ").length - 2 |> min 3},thread={(line.splitOn "spant").length + (line.splitOn "carry").length - 2 |> min 3},spanevt={min (countSpanEvents obs) 3}{spanEventVerdicts obs}"
       s!"{" ".intercalate (obs.map showObs)} calls={e.calls} cur={showTP (current e.st)} state={currentState e.st}\t{sig}"
     | _, _, _, _ => "bad-op"
   | _ => "bad-op"
